@@ -80,6 +80,10 @@ def eval_case(ctx, case):
     if r.timed_out:
         return Verdict.inconclusive("watchdog")
     if summary is None:
+        cr = drvrun.crash_in_generated(r)
+        if cr:
+            return Verdict.violated("the test binary linked with the generated mocks died while the driver ran (%s) with a generated file on the stack (%s)" % (
+                cr["crash"], cr["generated_frame"]), dict(cr, **{"template-data": td}), tags)
         return Verdict.inconclusive("driver did not run to completion (exit %s): %s" % (r.exit, (r.out + r.err)[-800:]))
     cnt = summary["counters"]
     for k, v in cnt.items():
